@@ -36,6 +36,11 @@ def main():
     results = json.load(open(resp)) if os.path.exists(resp) else {}
     for s in names:
         prop = s.split("-")[0]
+        mp0 = os.path.join(SEEDS, s, "meta.json")
+        if os.path.exists(mp0) and json.load(open(mp0)).get("retired"):
+            print(s, "retired (no longer a violation on the current tree)")
+            results[s] = [{"check": "-", "result": "retired"}]
+            continue
         res = [run(s, c) for c in TRY.get(prop, [prop])]
         results[s] = res
         print(s, [(r["check"], r.get("exit"), r.get("violations")) for r in res])
